@@ -185,6 +185,9 @@ var qProps = map[string]qPropDef{
 	"TestProp_C12_Store":          {"C12", profileC12, false},
 	"TestProp_C14_Store":          {"C14", profileC14, false},
 	"TestProp_C14_BigLists":       {"C14", profileC14, false},
+	// C01's share of the store tier: an enqueue that returns success has stored its message (full and
+	// nearly full queues under both drop policies, where admission and eviction interact)
+	"TestProp_C01_Admission": {"C01", profileC12, false},
 }
 
 func qProp(t *testing.T, test string) {
@@ -210,6 +213,7 @@ func TestProp_C05_Store(t *testing.T)          { qProp(t, "TestProp_C05_Store") 
 func TestProp_C05_SubGranularity(t *testing.T) { qProp(t, "TestProp_C05_SubGranularity") }
 func TestProp_C12_Store(t *testing.T)          { qProp(t, "TestProp_C12_Store") }
 func TestProp_C14_Store(t *testing.T)          { qProp(t, "TestProp_C14_Store") }
+func TestProp_C01_Admission(t *testing.T)      { qProp(t, "TestProp_C01_Admission") }
 
 // TestReplay_Q re-executes saved cases without rapid (the plain regression tier).
 func TestReplay_Q(t *testing.T) {
